@@ -493,6 +493,33 @@ def run(kind, k, v):
 ''', [("run", [("get", "a", 0), ("get", "b", 0), ("get", "zz", 0), ("put", "c", 9), ("d", 0, 0), ("b", 0, 0), ("other", 0, 0)])])
 
 
+# ---- a helper name that does not denote one function (conditional definitions, aliases) must be left alone
+case('''
+def run(n, x):
+    if n == 0:
+        def first(v):
+            return ("soon", v)
+        nxt = first
+    else:
+        def first(v):
+            return ("at", v + n)
+
+        def nxt(v):
+            return ("later", v * n)
+    return first(x), nxt(x)
+
+def pick(x):
+    return ("a", x)
+
+if len("ab") == 2:
+    def pick(x):
+        return ("b", x)
+
+def run2(x):
+    return pick(x)
+''', [("run", [(0, 1), (2, 5)]), ("run2", [(1,)])])
+
+
 def outcome(ns, fn, args):
     import copy
     try:
